@@ -126,7 +126,12 @@ def run(ctx):
         (nodes, edges, init), r = gen_states(ctx, "MC_GfaStore", hcfg, dot=True, coverage=False)
         g = tours.Graph({k: None for k in nodes}, edges, init)
         g._to_term = {}  # no need to run to terminal states
-        beh = tours.transition_tour(g, max_len=14)
+        if g.nedges <= 120000:
+            beh = tours.transition_tour(g, max_len=14)
+            covered = "every edge (transition tour)"
+        else:   # too large for a full tour in pure Python: seeded random histories instead
+            beh = tours.random_walks(g, 6000, ctx.seed, max_len=12)
+            covered = "6000 seeded random histories of up to 12 operations"
         tag = hcfg[9:-4]
         for bi, b in enumerate(beh):
             ops = [label_to_op(l) for l, _ in b]
@@ -136,7 +141,7 @@ def run(ctx):
                 jobs.append((f"{tag}h{bi}m{mi}", ops, m))
             if any(o["op"] == "DelNode" for o in ops):
                 ctx.nontrivial.add(("hist", tag, bi))
-        hist_notes.append({"cfg": hcfg, "states": r.distinct, "edges": g.nedges, "tour_behaviours": len(beh)})
+        hist_notes.append({"cfg": hcfg, "states": r.distinct, "edges": g.nedges, "behaviours": len(beh), "coverage": covered})
     ctx.notes["history_state_graphs"] = hist_notes
     cases = pool_map(run_history, jobs, chunk=64)
     ctx.evaluations += len(cases)
